@@ -38,6 +38,7 @@ type c13GResp struct {
 type c13GAttempt struct {
 	fields  []c13Field // request header block in wire order
 	payload string     // concatenated DATA payloads
+	live    *c13Live   // pacing of an interactive exchange (lane live), nil otherwise
 }
 
 type c13GScenario struct {
@@ -205,6 +206,22 @@ type c13GScripts struct {
 	scripts  map[string][]c13GResp
 	hits     map[string]int
 	captured []c13GAttempt
+	lives    map[string]*c13Live
+}
+
+func (p *c13GScripts) liveFor(fields []c13Field) *c13Live {
+	p.mu.Lock()
+	defer p.mu.Unlock()
+	for _, f := range fields {
+		if f.name == ":path" {
+			path := f.value
+			if i := strings.IndexByte(path, '?'); i >= 0 {
+				path = path[:i]
+			}
+			return p.lives[path]
+		}
+	}
+	return nil
 }
 
 func (p *c13GScripts) install(sc *c13GScenario) {
@@ -359,8 +376,19 @@ func (p *c13H2Peer) serve(c net.Conn) {
 			writeBlock(id, blk, false)
 		}
 		hasTrailers := len(resp.trailers) > 0
-		if resp.wire == "" && !hasTrailers {
+		if resp.wire == "" && !hasTrailers && att.live == nil {
 			writeBlock(id, resp.fields, true)
+			return
+		}
+		if att.live != nil {
+			// interactive download: one DATA frame per piece, the next one only after the caller
+			// has read the previous one
+			writeBlock(id, resp.fields, false)
+			for j, piece := range att.live.down {
+				fr.WriteData(id, false, []byte(piece))
+				att.live.waitRead(j)
+			}
+			fr.WriteData(id, true, nil)
 			return
 		}
 		writeBlock(id, resp.fields, false)
@@ -409,6 +437,7 @@ func (p *c13H2Peer) serve(c net.Conn) {
 				for _, hf := range f.Fields {
 					att.fields = append(att.fields, c13Field{hf.Name, hf.Value})
 				}
+				att.live = p.liveFor(att.fields)
 			}
 			if f.StreamEnded() {
 				respond(f.StreamID)
@@ -416,6 +445,9 @@ func (p *c13H2Peer) serve(c net.Conn) {
 		case *http2.DataFrame:
 			if att := open[f.StreamID]; att != nil {
 				att.payload += string(f.Data())
+				if att.live != nil {
+					att.live.gotUpload(len(f.Data()))
+				}
 				if f.StreamEnded() {
 					respond(f.StreamID)
 				}
